@@ -502,6 +502,30 @@ def run(world, rep, tier, only=None):
                    (n.text()[:40], n.line, same, invalidated, relabelled))
     rep.floor("C14.j copies into inode cache slots", n_j, 2)
 
+    # ------------------------------------------------------------------ C14.k a foreign superblock is verified with the checksum feature forced on
+    # ext2fs_superblock_csum_verify()/_set() do nothing unless the *handle's* superblock has metadata_csum.  The
+    # superblock of an external journal device is not the handle's: its checksum must be verified whenever the journal
+    # device itself has the feature, i.e. through a private copy of the handle with the bit switched on.
+    n_k = 0
+    for (pn, jf_) in (("e2fsck", "e2fsck/journal.c"), ("debugfs", "debugfs/journal.c")):
+        pr = world.program(pn)
+        for f in pr.fns_in_file(jf_):
+            forced = calls_to(f, "ext2fs_set_feature_metadata_csum")
+            for c in calls_to(f, "ext2fs_superblock_csum_verify", "ext2fs_superblock_csum_set"):
+                n_k += 1
+                a0 = T.strip(arg(c, 0))
+                clone = None
+                if isinstance(a0, dict) and a0.get("k") == "u" and a0.get("o") == "&":
+                    v = T.strip(a0.get("e"))
+                    if isinstance(v, dict) and v.get("k") == "v" and v.get("s") == "l":
+                        clone = v["n"]
+                on = [s_ for s_ in forced if clone and clone in T.vars_in(arg(s_, 0) or {})]
+                rep.ob("C14.k", site(f, "%s on the journal device's superblock uses a handle with metadata_csum forced on[%s]#%d" %
+                                     (T.call_names(c.ev["x"])[0], pn, n_k)),
+                       bool(clone) and bool(on) and f.dominated_by(c, on),
+                       "first argument is a private copy (`&%s`) on which ext2fs_set_feature_metadata_csum() was applied before" % clone)
+    rep.floor("C14.k superblock checksum calls in the journal front-ends", n_k, 3)
+
     # ------------------------------------------------------------------ C14.f CRC tables
     crc_tables(world, rep)
 
